@@ -8,7 +8,10 @@
                         arguments; [config_local_spec], [config_global_*_spec].
    3. [WfCfg]         : an invariant of every history (unconditionally);
                         [CfgGood] (both files readable and well formed) is kept
-                        by every step whose `config` arguments are ok;
+                        by every step whose `config` arguments are ok (by EVERY
+                        step: CtxFacts.reachable_cfgs_load, since `config`
+                        refuses an empty section name and line feeds:
+                        [hostile_config_refused]); a file broken BY HAND:
                         [broken_config_refuses_everything].
    4. effective identity: local over global, at the level of [ctx_of].
    5. the commit gate and the identity recorded in the commit text.  *)
@@ -109,6 +112,48 @@ Qed.
 
 Lemma cc_scan_lines_no_nl : forall s l, In l (scan_lines s) -> ~ In c_nl l.
 Proof. intros s l Hin. apply (cc_scan_lines_aux_no_nl s [] l); [intros [] | exact Hin]. Qed.
+
+(* the guard of `config` (Repo.config_args_ok), read as propositions *)
+Lemma cc_contains_byte_iff : forall c s, contains_byte c s = false <-> ~ In c s.
+Proof.
+  intros c s. induction s as [|x r IH]; cbn [contains_byte In].
+  - split; [intros _ [] | reflexivity].
+  - rewrite orb_false_iff, IH. split.
+    + intros [Hx Hr] [Hc|Hc]; [subst x; rewrite beqb_refl in Hx; discriminate Hx | exact (Hr Hc)].
+    + intro Hn. split.
+      * destruct (beqb x c) eqn:E; [|reflexivity]. apply beqb_eq in E. contradiction Hn. left. exact E.
+      * intro Hc. apply Hn. right. exact Hc.
+Qed.
+
+Lemma cc_split2_join : forall sep key a b, split_all sep key = [a; b] -> key = a ++ sep :: b.
+Proof.
+  intros sep key a b H. rewrite <- (lf_join_split_all sep key), H. reflexivity.
+Qed.
+
+Lemma config_args_ok_iff : forall key value sec k,
+  split_all x2e key = [sec; k] ->
+  (config_args_ok sec key value = true <->
+   sec <> [] /\ ~ In c_nl sec /\ ~ In c_nl k /\ ~ In c_nl value).
+Proof.
+  intros key value sec k Hsp. pose proof (cc_split2_join x2e key sec k Hsp) as Hk.
+  unfold config_args_ok. rewrite !andb_true_iff, !negb_true_iff, !cc_contains_byte_iff. split.
+  - intros [[Hne Hkey] Hv]. split; [intro E; subst sec; discriminate Hne|].
+    split; [intro Hin; apply Hkey; rewrite Hk; apply in_or_app; left; exact Hin|].
+    split; [intro Hin; apply Hkey; rewrite Hk; apply in_or_app; right; right; exact Hin | exact Hv].
+  - intros (Hne & Hs & Hkk & Hv). split; [split|exact Hv].
+    + destruct sec; [contradiction Hne; reflexivity | reflexivity].
+    + rewrite Hk. intro Hin. apply in_app_or in Hin.
+      destruct Hin as [Hin|[Hin|Hin]]; [exact (Hs Hin) | discriminate Hin | exact (Hkk Hin)].
+Qed.
+
+(* the arguments in the domain of C20 pass the guard *)
+Lemma ok_args_guard : forall key value sec k,
+  split_all x2e key = [sec; k] -> ok_sec sec -> ok_key k -> ok_val value ->
+  config_args_ok sec key value = true.
+Proof.
+  intros key value sec k Hsp [Hne Hs] [[Hk _] _] [Hv _].
+  apply (config_args_ok_iff key value sec k Hsp). repeat split; assumption.
+Qed.
 
 (* ================================================================== *)
 (** * 1. What the loader accepts is well formed *)
@@ -255,16 +300,19 @@ Proof. intros c Hc. cbn [cfg_of] in Hc. injection Hc as Hc. subst c. exact wf_cf
 (** * 2. `config`, evaluated exactly *)
 
 (* the file-system writes of one `config` call; [None]: the call is refused
-   (wrong number of arguments, or a key that is not <section>.<key>) *)
+   (wrong number of arguments, a key that is not <section>.<key>, an empty
+   section name, or a line feed in the key or the value) *)
 Definition config_trace (w : world) (x : ctx) (global : bool) (args : list bytes) : option (list effect) :=
   match args with
   | [key; value] =>
       match split_all x2e key with
       | [sec; k] =>
-          Some (if global then
-                  (match w_gcfg w with CfgAbsent => [ESetGcfg (CfgFile (Some []))] | CfgFile _ => [] end)
-                  ++ [ESetGcfg (cfg_written (cfg_add (x_g x) sec k value))]
-                else [ESetLcfg (cfg_written (cfg_add (x_l x) sec k value))])
+          if config_args_ok sec key value then
+            Some (if global then
+                    (match w_gcfg w with CfgAbsent => [ESetGcfg (CfgFile (Some []))] | CfgFile _ => [] end)
+                    ++ [ESetGcfg (cfg_written (cfg_add (x_g x) sec k value))]
+                  else [ESetLcfg (cfg_written (cfg_add (x_l x) sec k value))])
+          else None
       | _ => None
       end
   | _ => None
@@ -280,6 +328,8 @@ Proof.
   intros x g args w t. unfold cmd_config, config_trace.
   destruct args as [|key [|value [|a3 ar]]]; try reflexivity.
   destruct (split_all x2e key) as [|sec [|k [|s3 sr]]]; try reflexivity.
+  rewrite ev_bind_guard.
+  destruct (config_args_ok sec key value); [|reflexivity].
   destruct g.
   - ev. destruct (w_gcfg w) as [|o] eqn:Eg.
     + ev. cbn [app]. rewrite <- app_assoc. reflexivity.
@@ -382,7 +432,7 @@ Theorem cmd_config_spec : forall x w l key value sec k,
        [ESetLcfg (CfgFile (Some (cfg_add l sec k value)))].
 Proof.
   intros x w l key value sec k Hl Hwf Hsp Hs Hk Hv t. rewrite cmd_config_eq.
-  unfold config_trace. rewrite Hsp, Hl.
+  unfold config_trace. rewrite Hsp, (ok_args_guard key value sec k Hsp Hs Hk Hv), Hl.
   rewrite (cfg_written_wf _ (cfg_add_wf l sec k value Hwf Hs Hk Hv)). reflexivity.
 Qed.
 
@@ -394,7 +444,7 @@ Theorem cmd_config_global_spec : forall x w g key value sec k,
         ++ [ESetGcfg (CfgFile (Some (cfg_add g sec k value)))]).
 Proof.
   intros x w g key value sec k Hg Hwf Hsp Hs Hk Hv t. rewrite cmd_config_eq.
-  unfold config_trace. rewrite Hsp, Hg.
+  unfold config_trace. rewrite Hsp, (ok_args_guard key value sec k Hsp Hs Hk Hv), Hg.
   rewrite (cfg_written_wf _ (cfg_add_wf g sec k value Hwf Hs Hk Hv)). reflexivity.
 Qed.
 
@@ -416,7 +466,7 @@ Proof.
   assert (Hl' : cfg_of (w_lcfg w) = Some l) by (rewrite Hl; reflexivity).
   destruct (ctx_of_some w l g Hl' Eg Hrest) as (x & Hx & Hxl & Hxg).
   split.
-  - rewrite (step_config_eq e false _ w x Hi Hx). unfold config_trace. rewrite Hsp, Hxl.
+  - rewrite (step_config_eq e false _ w x Hi Hx). unfold config_trace. rewrite Hsp, (ok_args_guard key value sec k Hsp Hs Hk Hv), Hxl.
     rewrite (cfg_written_wf _ (cfg_add_wf l sec k value Hwf Hs Hk Hv)). reflexivity.
   - split; [reflexivity|]. split; [apply cfg_add_updated; assumption|].
     split; [reflexivity|]. constructor. reflexivity.
@@ -440,7 +490,7 @@ Proof.
   assert (Hg' : cfg_of (w_gcfg w) = Some g) by (rewrite Hg; reflexivity).
   destruct (ctx_of_some w l g El Hg' Hrest) as (x & Hx & Hxl & Hxg).
   split.
-  - rewrite (step_config_eq e true _ w x Hi Hx). unfold config_trace. rewrite Hsp, Hxg, Hg.
+  - rewrite (step_config_eq e true _ w x Hi Hx). unfold config_trace. rewrite Hsp, (ok_args_guard key value sec k Hsp Hs Hk Hv), Hxg, Hg.
     rewrite (cfg_written_wf _ (cfg_add_wf g sec k value Hwf Hs Hk Hv)). reflexivity.
   - split; [reflexivity|]. split; [apply cfg_add_updated; assumption|].
     split; [reflexivity|]. constructor. reflexivity.
@@ -465,7 +515,7 @@ Proof.
   assert (Hg' : cfg_of (w_gcfg w) = Some []) by (rewrite Hg; reflexivity).
   destruct (ctx_of_some w l [] El Hg' Hrest) as (x & Hx & Hxl & Hxg).
   split.
-  - rewrite (step_config_eq e true _ w x Hi Hx). unfold config_trace. rewrite Hsp, Hxg, Hg.
+  - rewrite (step_config_eq e true _ w x Hi Hx). unfold config_trace. rewrite Hsp, (ok_args_guard key value sec k Hsp Hs Hk Hv), Hxg, Hg.
     rewrite (cfg_written_wf _ (cfg_add_wf [] sec k value wf_cfg_nil Hs Hk Hv)). reflexivity.
   - split; [reflexivity|]. split; [apply cfg_add_updated; [exact wf_cfg_nil|assumption..]|].
     split; [reflexivity|]. constructor. reflexivity.
@@ -834,31 +884,141 @@ Qed.
 
 (* ---------- item 2c: NOT-ok arguments ---------- *)
 
+(* `config` REFUSES (exit 1, nothing written, no file created) a call whose
+   section name is empty or whose "<section>.<key>" or value holds a line feed:
+   before this check such a call wrote a file that no command could load
+   afterwards.  In every world, loaded or not. *)
+Theorem hostile_config_refused : forall e g key value w,
+  (forall sec k, split_all x2e key = [sec; k] -> config_args_ok sec key value = false) ->
+  step (ACmd e (CConfig g [key; value])) w = (w, OErr, []).
+Proof.
+  intros e g key value w Hbad.
+  destruct (w_inited w) eqn:Ei; [|apply step_not_loaded; [discriminate | left; exact Ei]].
+  destruct (ctx_of w) as [x|] eqn:Ex; [|apply step_not_loaded; [discriminate | right; exact Ex]].
+  rewrite (step_config_eq e g _ w x Ei Ex). unfold config_trace.
+  destruct (split_all x2e key) as [|sec [|k [|s3 sr]]] eqn:Esp; try reflexivity.
+  rewrite (Hbad sec k eq_refl). reflexivity.
+Qed.
+
+Corollary config_newline_in_value_refused : forall e g key value w,
+  In c_nl value -> step (ACmd e (CConfig g [key; value])) w = (w, OErr, []).
+Proof.
+  intros e g key value w Hin. apply hostile_config_refused. intros sec k Hsp.
+  destruct (config_args_ok sec key value) eqn:E; [|reflexivity].
+  apply (config_args_ok_iff key value sec k Hsp) in E. destruct E as (_ & _ & _ & Hv). contradiction.
+Qed.
+
+Corollary config_newline_in_key_refused : forall e g key value w,
+  In c_nl key -> step (ACmd e (CConfig g [key; value])) w = (w, OErr, []).
+Proof.
+  intros e g key value w Hin. apply hostile_config_refused. intros sec k Hsp.
+  destruct (config_args_ok sec key value) eqn:E; [|reflexivity].
+  apply (config_args_ok_iff key value sec k Hsp) in E. destruct E as (_ & Hs & Hk & _).
+  rewrite (cc_split2_join x2e key sec k Hsp) in Hin. apply in_app_or in Hin.
+  destruct Hin as [Hin|[Hin|Hin]]; [contradiction | discriminate Hin | contradiction].
+Qed.
+
+Corollary config_empty_section_refused : forall e g k value w,
+  step (ACmd e (CConfig g [x2e :: k; value])) w = (w, OErr, []).
+Proof.
+  intros e g k value w. apply hostile_config_refused. intros sec k' Hsp.
+  cbn [split_all] in Hsp. change (beqb x2e x2e) with true in Hsp. cbv iota in Hsp.
+  injection Hsp as Hsec _. subst sec. reflexivity.
+Qed.
+
+(* conversely, an accepted call passed the guard *)
+Lemma config_trace_some_guard : forall w x g args tr,
+  config_trace w x g args = Some tr ->
+  exists key value sec k, args = [key; value] /\ split_all x2e key = [sec; k] /\
+    sec <> [] /\ ~ In c_nl sec /\ ~ In c_nl k /\ ~ In c_nl value.
+Proof.
+  intros w x g args tr Htr. unfold config_trace in Htr.
+  destruct args as [|key [|value [|a3 ar]]]; try discriminate Htr.
+  destruct (split_all x2e key) as [|sec [|k [|s3 sr]]] eqn:Esp; try discriminate Htr.
+  destruct (config_args_ok sec key value) eqn:E; [|discriminate Htr].
+  exists key, value, sec, k. split; [reflexivity|]. split; [exact Esp|].
+  apply (config_args_ok_iff key value sec k Esp). exact E.
+Qed.
+
 Local Open Scope string_scope.
 
 Definition env0 : env := mkEnv 1700000000 0.
 
-(* a value with a newline: the file that is written has a line "b" that is
-   neither a section nor a key/value line: the next process rejects the file *)
-Definition w_broken : world :=
-  run [ACmd env0 CInit; ACmd env0 (CConfig false [str "user.name"; [x61; x0a; x62]])] w_empty.
+Definition w_inited0 : world := Eval vm_compute in run [ACmd env0 CInit] w_empty.
+Lemma w_inited0_run : run [ACmd env0 CInit] w_empty = w_inited0.
+Proof. vm_compute. reflexivity. Qed.
 
-Example ex_newline_breaks_config :
-  step (ACmd env0 (CConfig false [str "user.name"; [x61; x0a; x62]])) (run [ACmd env0 CInit] w_empty)
-  = (w_broken, OOk [], [ESetLcfg (CfgFile None)])
-  /\ w_lcfg w_broken = CfgFile None /\ w_inited w_broken = true
-  /\ step (ACmd env0 CStatus) w_broken = (w_broken, OErr, []).
+(* by computation: an empty section name, a line feed in the value, a line
+   feed in the key (local and global): exit 1, the world unchanged, nothing
+   written; an ordinary value with a blank is still accepted *)
+Example ex_hostile_config_refused :
+  step (ACmd env0 (CConfig false [str ".k"; str "v"])) w_inited0 = (w_inited0, OErr, []) /\
+  step (ACmd env0 (CConfig false [str "user.name"; [x61; x0a; x62]])) w_inited0 = (w_inited0, OErr, []) /\
+  step (ACmd env0 (CConfig false [(str "us" ++ [x0a] ++ str "er.name")%list; str "x"])) w_inited0
+    = (w_inited0, OErr, []) /\
+  step (ACmd env0 (CConfig true [str "user.name"; [x61; x0a; x62]])) w_inited0 = (w_inited0, OErr, []) /\
+  w_gcfg w_inited0 = CfgAbsent /\
+  step (ACmd env0 (CConfig false [str "user.name"; str "ok name"])) w_inited0
+    = (set_lcfg w_inited0 (CfgFile (Some [(str "user", [(str "name", str "ok name")])])), OOk [],
+       [ESetLcfg (CfgFile (Some [(str "user", [(str "name", str "ok name")])]))]).
 Proof. vm_compute. repeat split; reflexivity. Qed.
 
-(* worse, silently: a value with a newline followed by "<k> = <v>" sets ANOTHER
-   key of the same section; here `config user.name` overwrites user.email *)
-Example ex_newline_injects_key :
-  w_lcfg (run [ACmd env0 CInit;
-               ACmd env0 (CConfig false [str "user.email"; str "me@x.yy"]);
-               ACmd env0 (CConfig false [str "user.name"; (str "N" ++ [x0a] ++ str "email = evil@x.yy")%list])]
-              w_empty)
-  = CfgFile (Some [(str "user", [(str "email", str "evil@x.yy"); (str "name", str "N")])]).
+(* the histories of the task statement, as runs from the empty disk *)
+Example ex_hostile_histories_unchanged :
+  run [ACmd env0 CInit; ACmd env0 (CConfig false [str ".k"; str "v"])] w_empty = w_inited0 /\
+  run [ACmd env0 CInit; ACmd env0 (CConfig false [str "user.name"; [x61; x0a; x62]])] w_empty = w_inited0 /\
+  run [ACmd env0 CInit; ACmd env0 (CConfig false [(str "us" ++ [x0a] ++ str "er.name")%list; str "x"])] w_empty
+    = w_inited0.
+Proof. vm_compute. repeat split; reflexivity. Qed.
+
+(* the refusals in one statement: in general, and the three histories
+   `init; config .k v`, `init; config user.name "a\nb"`,
+   `init; config "us\ner.name" x` by computation (exit 1, no effect, the world
+   unchanged), while `config user.name "ok name"` is accepted as before *)
+Theorem hostile_config_refused_summary :
+  (forall e g key value w, In c_nl value -> step (ACmd e (CConfig g [key; value])) w = (w, OErr, [])) /\
+  (forall e g key value w, In c_nl key -> step (ACmd e (CConfig g [key; value])) w = (w, OErr, [])) /\
+  (forall e g k value w, step (ACmd e (CConfig g [x2e :: k; value])) w = (w, OErr, [])) /\
+  (forall c, In c [CConfig false [str ".k"; str "v"];
+                   CConfig false [str "user.name"; [x61; x0a; x62]];
+                   CConfig false [(str "us" ++ [x0a] ++ str "er.name")%list; str "x"]] ->
+     step (ACmd env0 c) (run [ACmd env0 CInit] w_empty) = (run [ACmd env0 CInit] w_empty, OErr, []) /\
+     run [ACmd env0 CInit; ACmd env0 c] w_empty = run [ACmd env0 CInit] w_empty) /\
+  w_lcfg (run [ACmd env0 CInit; ACmd env0 (CConfig false [str "user.name"; str "ok name"])] w_empty)
+    = CfgFile (Some [(str "user", [(str "name", str "ok name")])]).
+Proof.
+  split; [exact config_newline_in_value_refused|].
+  split; [exact config_newline_in_key_refused|].
+  split; [exact config_empty_section_refused|].
+  split; [|vm_compute; reflexivity].
+  intros c [<-|[<-|[<-|[]]]]; split; vm_compute; reflexivity.
+Qed.
+
+(* a configuration file the loader rejects can no longer be produced by
+   `config` (CtxFacts.reachable_cfgs_load); it can still be produced BY HAND
+   (an editor on .goit/config).  [w_broken]: the local file after `init`,
+   replaced by the text "[user]\n\tname = a\nb\n" that `config user.name "a\nb"`
+   wrote before the repair *)
+Definition w_broken : world := Eval vm_compute in set_lcfg w_inited0 (CfgFile None).
+
+Example ex_broken_text_rejected :
+  cfg_load (str "[user]" ++ [x0a; x09] ++ str "name = a" ++ [x0a] ++ str "b" ++ [x0a])%list = None.
 Proof. vm_compute. reflexivity. Qed.
+
+Example ex_hand_broken_config :
+  w_lcfg w_broken = CfgFile None /\ w_inited w_broken = true
+  /\ step (ACmd env0 CStatus) w_broken = (w_broken, OErr, [])
+  /\ step (ACmd env0 (CConfig false [str "user.name"; str "a"])) w_broken = (w_broken, OErr, []).
+Proof. vm_compute. repeat split; reflexivity. Qed.
+
+(* before the repair a value "N\nemail = evil@x.yy" silently set ANOTHER key of
+   the same section; now the call is refused and user.email keeps its value *)
+Example ex_newline_cannot_inject_key :
+  let h := [ACmd env0 CInit; ACmd env0 (CConfig false [str "user.email"; str "me@x.yy"])] in
+  let bad := ACmd env0 (CConfig false [str "user.name"; (str "N" ++ [x0a] ++ str "email = evil@x.yy")%list]) in
+  step bad (run h w_empty) = (run h w_empty, OErr, []) /\
+  w_lcfg (run (h ++ [bad]) w_empty) = CfgFile (Some [(str "user", [(str "email", str "me@x.yy")])]).
+Proof. vm_compute. split; reflexivity. Qed.
 
 (* a TAB inside, white space around, '=' in the key: accepted, but another
    value / key is what the next process sees *)
@@ -1048,6 +1208,7 @@ Proof.
   intros w x args tr Htr. unfold config_trace in Htr.
   destruct args as [|key [|value [|a3 ar]]]; try discriminate Htr.
   destruct (split_all x2e key) as [|sec [|k [|s3 sr]]]; try discriminate Htr.
+  destruct (config_args_ok sec key value); [|discriminate Htr].
   injection Htr as Htr. subst tr. destruct (w_gcfg w); reflexivity.
 Qed.
 
@@ -1057,6 +1218,7 @@ Proof.
   intros w x args tr Htr. unfold config_trace in Htr.
   destruct args as [|key [|value [|a3 ar]]]; try discriminate Htr.
   destruct (split_all x2e key) as [|sec [|k [|s3 sr]]]; try discriminate Htr.
+  destruct (config_args_ok sec key value); [|discriminate Htr].
   injection Htr as Htr. subst tr. reflexivity.
 Qed.
 
@@ -1423,8 +1585,14 @@ Print Assumptions broken_config_refuses.
 Print Assumptions broken_config_refuses_everything.
 Print Assumptions broken_config_frozen.
 Print Assumptions broken_config_refuses_fault.
-Print Assumptions ex_newline_breaks_config.
-Print Assumptions ex_newline_injects_key.
+Print Assumptions hostile_config_refused.
+Print Assumptions config_newline_in_value_refused.
+Print Assumptions config_newline_in_key_refused.
+Print Assumptions config_empty_section_refused.
+Print Assumptions ex_hostile_config_refused.
+Print Assumptions hostile_config_refused_summary.
+Print Assumptions ex_hand_broken_config.
+Print Assumptions ex_newline_cannot_inject_key.
 Print Assumptions effective_name_local.
 Print Assumptions effective_name_global.
 Print Assumptions user_set_ctx.
